@@ -146,7 +146,17 @@ def genHistory (len : Nat) (period : Nat) (onlyValid : Bool) : Gen History := do
   let mut ops : List MuxOp := []
   let mut pids : List Nat := []
   let mut auto := 0x100
-  if (← chance 1 3) then
+  if (← chance 1 4) then
+    -- an explicit stream on the PID automatic assignment will hand out later: written to, removed, then an automatic add
+    -- receives that PID and continues its counter
+    let d1 ← genData 0x100 false
+    let d2 ← genData 0x100 false
+    let d3 ← genData 0x100 false
+    ops := ops ++ [.add { elementaryPID := 0x100, streamType := 0x1b }, .add { elementaryPID := 0x250, streamType := 0x0f }, .setPCR 0x250,
+                   .data d1, .data d2, .remove 0x100, .add { elementaryPID := 0, streamType := 0x06 }, .data d3]
+    pids := [0x250, 0x100]
+    auto := 0x101
+  else if (← chance 1 3) then
     -- two explicit streams exactly where automatic assignment starts, then an automatic one: it has to step over both
     ops := ops ++ [.add { elementaryPID := 0x100, streamType := 0x1b }, .add { elementaryPID := 0x101, streamType := 0x0f },
                    .add { elementaryPID := 0, streamType := 0x06 }]
@@ -327,6 +337,22 @@ def runC17 (t : Tier) : Emit Unit := do
       else ops := ops ++ [.setPCR 0x100, .tables, .tables]
     emit "C17" (muxCase { period := 40, ops := ops } true "version-wrap")
   runHistories "C17" t true (if t.quick then 10 else 100) 50 false
+  -- automatic PIDs walk through the whole PID space (past the PMT PID 0x1000, up to the null PID and around): one stream stays,
+  -- 3900 (thorough: 8100, i.e. once around) streams come and go, tables are emitted around the places where reserved PIDs must be stepped over
+  let mut ops : List MuxOp := [.add { elementaryPID := 0, streamType := 0x1b }, .setPCR 0x100, .tables]
+  let mut cur := 0x101
+  for i in [0:(if t.quick then 3900 else 8100)] do
+    -- the PID the muxer will assign: the next one from `cur` that is neither reserved nor 0x100
+    let mut p := cur
+    for _ in [0:300] do
+      if p < 0x100 || p == 0x1000 || p ≥ 0x1fff || p == 0x100 then p := (p + 1) % 65536
+    if p < 0x100 then p := 0x101
+    ops := ops ++ [.add { elementaryPID := 0, streamType := 0x0f }]
+    if i % 1000 = 999 || (p ≥ 0xffe && p ≤ 0x1002) || p ≥ 0x1ffc || p ≤ 0x103 then ops := ops ++ [.tables]
+    ops := ops ++ [.remove p]
+    cur := (p + 1) % 65536
+  ops := ops ++ [.add { elementaryPID := 0, streamType := 0x0f }, .tables]
+  emit "C17" (muxCase { period := 40, ops := ops } true "automatic-pids-walk-the-pid-space")
 
 /-! ### one MuxerData / adaptation field object reused across calls
 
